@@ -2,6 +2,7 @@
 (***************************************************************************)
 (* Judges recorded calls of the Thrift Binary codec against ThriftWire.    *)
 (*   enc   : one writer API produced `out` for (kind, val)                 *)
+(*   encb  : the stream writer over a writer with a byte budget            *)
 (*   dec   : one reader API decoded `in` as `kind`                         *)
 (*   entry : any other buffer-based decoding entry point (C03 only)        *)
 (* VPROP selects the clause set: C01 (agreement with Enc/Dec, lengths,     *)
@@ -17,6 +18,14 @@ EncOK(ev) ==
   /\ Canon(ev.out) = e
   /\ ev.ret = SegsLen(e)          \* returned length / WrittenLen delta
   /\ ev.adv = SegsLen(e)          \* advertised length function
+
+\* a stream writer over a bufiox.Writer that accepts `budget` bytes and then fails: success exactly when the
+\* encoding fits, otherwise the writer's own error comes back and nothing beyond the budget was accepted
+EncBudgetOK(ev) ==
+  LET n == SegsLen(Enc(ev.kind, ev.val)) IN
+  /\ ~ev.panic
+  /\ IF ev.budget >= n THEN ev.ok /\ ev.wrote = n
+     ELSE ~ev.ok /\ ev.errsrc /\ ev.wrote <= ev.budget
 
 DecAgree(ev) ==
   LET d == Dec(ev.kind, MkIn(ev.in)) IN
@@ -40,6 +49,7 @@ DecOKFor(ev) ==
 
 EvOK(ev) ==
   CASE ev.k = "enc"   -> (Prop \in {"C01", "C12"}) => EncOK(ev)
+    [] ev.k = "encb"  -> (Prop \in {"C01", "C12"}) => EncBudgetOK(ev)
     [] ev.k = "dec"   -> DecOKFor(ev)
     [] ev.k = "entry" -> ~ev.panic /\ (ev.ok => (0 <= ev.n /\ ev.n <= ev.len))
     [] OTHER -> TRUE
